@@ -46,6 +46,12 @@ class Check(CheckBase):
             mn = r.choice([1, 4, mx // 16, mx // 32 or 1, 3, 5, 7, mx // 16 - 1, mx // 16 - 3])
             cases.append({'kind': 'streams', 'min': mn, 'max': mx, 'seed': r.randrange(1 << 30),
                           'pairs': 16})
+        # parameters above the built-in defaults (max_length 5 120 000): a few whole-stream feeds of 12 maximum lengths
+        for i in range(1 if quick else 8):
+            r = random.Random(f'C11/{self.seed}/large/{i}')
+            mx = r.choice([6_000_000, 5_200_000, 8_000_000])
+            cases.insert(0, {'kind': 'streams', 'min': r.choice([128_000, mx // 64 // 4 * 4, 4096]), 'max': mx,
+                             'seed': r.randrange(1 << 30), 'pairs': 3, 'slen': 12 * mx, 'large': True, 'timeout': 900})
         for i in range(6 if quick else 120):
             r = random.Random(f'C11/{self.seed}/repo/{i}')
             cases.append({'kind': 'repo', 'min': r.choice([4, 8]), 'max': r.choice([64, 128]),
@@ -62,7 +68,8 @@ class Check(CheckBase):
         unmet = []
         if c.get('pairs', 0) < (500 if self.tier == 'quick' else 5000):
             unmet.append(f'pairs checked {c.get("pairs", 0)} below floor')
-        for k in ('suffix_pairs', 'edit_pairs', 'key_pairs', 'repo_pairs', 'segmented_streams', 'grid_checked_streams'):
+        for k in ('suffix_pairs', 'edit_pairs', 'key_pairs', 'repo_pairs', 'segmented_streams', 'grid_checked_streams',
+                  'key_bit_neighbours', 'large_parameter_streams'):
             if c.get(k, 0) == 0:
                 unmet.append(f'{k} = 0')
         return unmet
@@ -127,11 +134,11 @@ class Check(CheckBase):
         key = r.randbytes(16)
         if key[:8] == bytes(8):
             key = b'\x01' + key[1:]
-        slen = r.randrange(35_000, 75_000) * 4
+        slen = case.get('slen') or r.randrange(35_000, 75_000) * 4
         self._grid_violations, self._grid_calls = [], 0
         for pi in range(case['pairs']):
             S = r.randbytes(slen)
-            mode = pi % 4
+            mode = pi % 4 if not case.get('large') else (0, 1, 2)[pi % 3]
             ident = {'min': mn, 'max': mx, 'key': key.hex(), 'seed': case['seed'], 'pair': pi}
             if mode == 0:                                   # shared suffix, different prefixes
                 l1, l2 = r.choice([0, 4, 8, mx, 3 * mx - 4]) // 4 * 4, r.randrange(0, 3 * mx) // 4 * 4
@@ -209,6 +216,25 @@ class Check(CheckBase):
             counters['pairs'] += 1
             if len(violations) > 3:
                 break
+        if not case.get('large') and not violations:
+            # every bit of the multiplier half of the key matters: 64 single-bit neighbours of the key on one short stream
+            S = r.randbytes(16 * 1024 * 4)
+            b1 = self._bounds(mn, mx, S, key)
+            for bit in range(64):
+                k2 = bytearray(key)
+                k2[bit // 8] ^= 1 << (bit % 8)
+                if bytes(k2[:8]) == bytes(8):
+                    continue
+                counters['key_bit_neighbours'] = counters.get('key_bit_neighbours', 0) + 1
+                if self._bounds(mn, mx, S, bytes(k2)) == b1:
+                    violations.append({'what': f'chunker keys that differ in bit {bit % 8} of byte {bit // 8} (multiplier half) produce identical '
+                                               f'boundaries on {len(S)} random bytes ({len(b1)} boundaries)', 'mechanism': None,
+                                       'witness': {'min': mn, 'max': mx, 'key': key.hex(), 'bit': bit, 'seed': case['seed']}})
+                    break
+            classes.add(f'keybits|{mx}')
+        if case.get('large'):
+            counters['large_parameter_streams'] = counters.get('large_parameter_streams', 0) + self._grid_calls
+            classes.add(f'large|{mx}')
         counters['grid_checked_streams'] = self._grid_calls
         if self._grid_violations:
             violations.append({'what': 'a boundary outside the tail zone is not a multiple of the alignment: equal data behind '
